@@ -139,7 +139,11 @@ def coreLoop (O : PyOracle) (lines : Lines) : Nat → Nat → PSt → PM PSt
       -- imports section
       if s.inImports && (st.isEmpty || sw st "#") then coreLoop O lines f (i + 1) s
       else if s.inImports && (sw st "import " || sw st "from ") then
-        coreLoop O lines f (i + 1) { s with imports := s.imports ++ [line] }
+        -- the line must be Python (`ast.parse(line)`): the engine executes it as it stands
+        match O.stmt line with
+        | .ok => coreLoop O lines f (i + 1) { s with imports := s.imports ++ [line] }
+        | .miss => .error (.oracleMiss line)
+        | _ => synErr i "Invalid Import"
       else
         match ({ s with inImports := false } : PSt) with
         | s =>
